@@ -1,5 +1,6 @@
 (* C02: lookup is exact set membership, for every byte string, and never faults. *)
-From X Require Import Builder IfaceBuild Base Arr Dac Trie Spec Wf IfaceQuery All AllBuild Examples ExampleFacts.
+From X Require Import Builder IfaceBuild Base Arr Dac Trie Spec Wf IfaceQuery All AllBuild Examples ExampleFacts
+  AccessLib AccessGen AccessDispatch AccessTrieGen AllAccessTrie.
 Local Open Scope N_scope.
 
 Theorem C02_lookup_exact : forall v L P K, wf_for v L P K ->
@@ -19,6 +20,23 @@ Theorem C02_for_all_valid_K : forall v tbl K req, valid_keys K = true -> small_k
   forall q, bytes_ok q = true -> lookup P q = Ok (lk P q) /\ (lk P q <> None <-> spec_member K q = true).
 Proof. exact headline_lookup. Qed.
 
+(* the same for trie::lookup as REGENERATED FROM trie.hpp on every run (AccessTrieGen.trg_lookup: the walk over
+   BASE/CHECK with the code table, the terminal flag, the TAIL match of the rest; through tail_vector::match,
+   code_table::get_code and the accessors of the four bc_vector classes, all regenerated as well) *)
+Theorem C02_source_lookup : forall v L P K, wf_for v L P K ->
+  forall q, bytes_ok q = true -> lenN q < 2^64 ->
+    trg_lookup P q = Ok (lk P q) /\ (lk P q <> None <-> spec_member K q = true).
+Proof. exact src_lookup. Qed.
+Theorem C02_source_for_all_valid_K : forall v tbl K req, valid_keys K = true -> small_keys K -> perm_okb tbl = true ->
+  exists P, build v tbl K req = Ok P /\
+  forall q, bytes_ok q = true -> lenN q < 2^64 ->
+    trg_lookup P q = Ok (lk P q) /\ (lk P q <> None <-> spec_member K q = true).
+Proof. exact src_headline_lookup. Qed.
+Example C02_source_example : match ex_trie V15 with
+  | Ok P => trg_lookup P [97; 98] <> Ok None /\ trg_lookup P [97; 98; 99] = Ok None /\ trg_lookup P [98; 0] = Ok None
+  | _ => False end.
+Proof. vm_compute. repeat split; try reflexivity. discriminate. Qed.
+
 Example C02_nonvacuous : forall v, exists L P, ex_logical v = Ok L /\ wf_for v L P ex_keys.
 Proof. exact ex_wf_for. Qed.
 Example C02_example : match ex_trie V15 with
@@ -28,3 +46,4 @@ Proof. vm_compute. repeat split; try reflexivity. discriminate. Qed.
 
 Print Assumptions C02_lookup_exact. Print Assumptions C02_lookup_walks_tree.
 Print Assumptions C02_for_all_valid_K.
+Print Assumptions C02_source_lookup. Print Assumptions C02_source_for_all_valid_K.
